@@ -4,12 +4,15 @@ EXTENDS GenKeys
 O1 == 0 + (NKeyLens)
 O2 == O1 + (Len(Scalars)+NKeyRand)
 O3 == O2 + (NShapes)
-Count == O3 + NKeyEnc
+O4 == O3 + NKeyEnc
+Count == O4 + NRelKeys
 ItemAt(g) ==
   IF g <= O1 THEN KeyLenAt(g - 0)
   ELSE IF g <= O2 THEN KeyAt(g - O1)
   ELSE IF g <= O3 THEN ShapeAt(g - O2)
-  ELSE KeyEncAt(g - O3)
+  ELSE IF g <= O4 THEN KeyEncAt(g - O3)
+  ELSE RelKeysAt(g - O4)
+Histories == IF "VERIF_TIER" \in DOMAIN IOEnv /\ IOEnv.VERIF_TIER = "thorough" THEN 300 ELSE 40
 VARIABLE n
 INSTANCE GenBase
 =============================================================================
